@@ -3,6 +3,7 @@ package protoprint
 import (
 	"fmt"
 	"slices"
+	"strconv"
 	"strings"
 
 	"github.com/pentops/j5/internal/j5s/protoprint/optionreflect"
@@ -215,6 +216,17 @@ func (fb *fileBuilder) printFieldStyle(name string, number int32, elem protorefl
 		return err
 	}
 
+	// json_name is not an extension: it is printed when it differs from the
+	// name protoc derives, otherwise re-parsing the text changes the JSON name
+	// (userID -> user_id -> userId).
+	if field, ok := elem.(protoreflect.FieldDescriptor); ok && !field.IsExtension() && field.JSONName() != defaultJSONName(string(field.Name())) {
+		options = append([]parsedOption{{
+			inline:        true,
+			inlineString:  proto.String(strconv.Quote(field.JSONName())),
+			qualifiedName: "json_name",
+		}}, options...)
+	}
+
 	fb.leadingComments(srcLoc)
 
 	if len(options) == 0 {
@@ -253,4 +265,24 @@ func (fb *fileBuilder) printFieldStyle(name string, number int32, elem protorefl
 	fb.trailingComments(srcLoc)
 
 	return nil
+}
+
+// defaultJSONName is protoc's ToJsonName: underscores are dropped and the
+// character after one is upper-cased.
+func defaultJSONName(name string) string {
+	out := make([]byte, 0, len(name))
+	upper := false
+	for i := 0; i < len(name); i++ {
+		c := name[i]
+		if c == '_' {
+			upper = true
+			continue
+		}
+		if upper && c >= 'a' && c <= 'z' {
+			c -= 'a' - 'A'
+		}
+		upper = false
+		out = append(out, c)
+	}
+	return string(out)
 }
